@@ -44,8 +44,8 @@ def nearest_fn(c, s1, s2, off, n2):
     finally:
         ctx.quiet -= 1
     ctx.assume(SB(z3.ForAll([i], z3.And(0 <= f(i), f(i) < n2t), patterns=[f(i)])))
-    ctx.assume(SB(z3.ForAll([i, j], z3.Implies(z3.And(0 <= j, j < n2t), dn <= dj))))
-    ctx.assume(SB(z3.ForAll([i, j], z3.Implies(z3.And(0 <= j, j < f(i)), dn < dj))))
+    ctx.assume(SB(sym.forall_t([i, j], z3.Implies(z3.And(0 <= j, j < n2t), dn <= dj))))
+    ctx.assume(SB(sym.forall_t([i, j], z3.Implies(z3.And(0 <= j, j < f(i)), dn < dj))))
     nn = lambda x: sym.wrap(f(_term(x)))
     cache[key] = (nn, s1._cell[0], s2._cell[0])
     return nn
@@ -117,9 +117,12 @@ class matching_time_indices(FnContract):
 
     def _inv(c, i, v):
         # stamps_2 is the shifted copy inside the loop: the clauses are stated over it with offset 0
+        basic = ["same_len", "in_range", "increasing_1", "paired_with_nearest"]
+        uses = {"same_len": basic, "in_range": basic, "increasing_1": basic, "within_max_diff": basic,
+                "paired_with_nearest": basic, "increasing_2_if_sorted": basic, "complete": basic}
         for label, cond, role in mti_clauses(c, v.stamps_1, v.stamps_2, 0, v.max_diff, v.matching_indices_1,
                                              v.matching_indices_2, i, c.len(v.stamps_2)):
-            yield label, cond
+            yield label, cond, uses[label]
 
     loops = {0: LoopSpec(_inv, types={"matching_indices_1": "list[int]", "matching_indices_2": "list[int]"})}
 
